@@ -58,10 +58,21 @@ func frsDigest(v []fr.Element) string {
 
 // slack returns a copy of v inside a larger backing array (capacity > length).
 func slackFr(v []fr.Element) []fr.Element {
-	out := make([]fr.Element, len(v), len(v)+3)
+	out := make([]fr.Element, len(v), 2*len(v)+8)
 	copy(out, v)
 	for i := len(v); i < cap(out); i++ {
 		out[:cap(out)][i].SetUint64(0xA5A5)
+	}
+	return out
+}
+
+// slackEl returns a copy of v inside a larger backing array (capacity > length, sentinel content beyond len).
+func slackEl(v []banderwagon.Element) []banderwagon.Element {
+	out := make([]banderwagon.Element, len(v), 3*len(v)+8) // room for an in-place append of vectors of the same size
+	copy(out, v)
+	full := out[:cap(out)]
+	for i := len(v); i < len(full); i++ {
+		full[i] = banderwagon.Generator
 	}
 	return out
 }
@@ -100,6 +111,7 @@ func c13Menu() []c13op {
 			cm := c.Commit(a)
 			ze := frFromBig(bi(400))
 			pr, _ := ipa.CreateIPAProof(common.NewTranscript("ipa"), c, cm, a, ze)
+			pr.L, pr.R = slackEl(pr.L), slackEl(pr.R) // the caller's vectors have spare capacity
 			b := c.PrecomputedWeights.ComputeBarycentricCoefficients(ze)
 			y, _ := ipa.InnerProd(a, b)
 			if !good {
@@ -171,6 +183,9 @@ func c13Menu() []c13op {
 				one := fr.One()
 				is.ys[1].Add(is.ys[1], &one)
 			}
+			p.IPA.L, p.IPA.R = slackEl(p.IPA.L), slackEl(p.IPA.R)
+			is.Cs = append(make([]*banderwagon.Element, 0, 5), is.Cs...)
+			is.ys = append(make([]*fr.Element, 0, 5), is.ys...)
 			zs := append(make([]uint8, 0, 8), is.zs...)
 			return []interface{}{p, &is.Cs, &is.ys, &zs}, func() string {
 				ok, err := multiproof.CheckMultiProof(common.NewTranscript("vt"), c, p, is.Cs, is.ys, zs)
@@ -299,6 +314,7 @@ func c13Menu() []c13op {
 		if err := p.Read(bytes.NewReader(hb)); err != nil {
 			panic(err)
 		}
+		p.IPA.L, p.IPA.R = slackEl(p.IPA.L), slackEl(p.IPA.R)
 		return []interface{}{&buf, &p}, func() string {
 			var q multiproof.MultiProof
 			err := q.Read(bytes.NewReader(buf))
